@@ -257,10 +257,13 @@ func run(seed int64, n int, dir string, _ []string) {
 			continue
 		}
 		// OFFSET / LIMIT / PERCENT / WITH TIES applied to that order
-		for c := 0; c < 8; c++ {
-			wt := g.Intn(2)
+		for c := 0; c < 14; c++ {
+			wt := g.Intn(3) % 2 // WITH TIES in one case of three
+			if c >= 8 {
+				wt = 1
+			}
 			kind := g.Pick("n", "n", "p", "none")
-			off := []int{-2, 0, 0, 1, 2, nkept - 1, nkept, nkept + 3, 5}[g.Intn(9)]
+			off := []int{-2, 0, 0, 1, 2, nkept - 1, nkept, nkept + 3, 5, g.Intn(nkept + 1), g.Intn(nkept + 1)}[g.Intn(11)]
 			hasOff := g.Intn(2) == 0
 			if !hasOff {
 				off = 0
@@ -268,7 +271,7 @@ func run(seed int64, n int, dir string, _ []string) {
 			var limTok, limSQL string
 			switch kind {
 			case "n":
-				l := []int{-1, 0, 1, 2, 3, nkept - 1, nkept, nkept + 1, 1000000}[g.Intn(9)]
+				l := []int{-1, 0, 1, 2, 3, nkept - 1, nkept, nkept + 1, 1000000, g.Intn(nkept + 1), g.Intn(nkept + 1), g.Intn(nkept + 1)}[g.Intn(12)]
 				limTok, limSQL = strconv.Itoa(l), fmt.Sprintf(" LIMIT %s", litInt(l))
 			case "p":
 				p := []float64{-5, 0, 0.5, 10, 25, 33.3, 50, 66.7, 99.9, 100, 100.5, 150, 1e10, math.NaN(), math.Inf(1), math.Inf(-1)}[g.Intn(16)]
